@@ -4,7 +4,7 @@
    the real library; after every step the description of what each live client emits must equal
    what the recording origin captured. *)
 From Coq Require Import List Arith Bool.
-From ReqV Require Export Model.Settings Model.ReExec Model.LiveSel Model.Handshake Model.PoolKey Model.DumpCtx Gen.CloneTable.
+From ReqV Require Export Model.Settings Model.ReExec Model.LiveSel Model.Handshake Model.PoolKey Model.DumpCtx Model.ConnectHdr Gen.CloneTable.
 Import ListNotations.
 
 Record c19_step := Step {
@@ -27,7 +27,8 @@ Inductive c19_case :=
 | CLive (l : list lstep)
 | CHandshake (l : list hsstep)
 | CPool (l : list pstep)          (* proxy setting changed after use: HTTP/1.1 pool key *)
-| CDump (l : list dstep).         (* request-level dump with inherited contexts *)   (* TLS handshake option: setter order x Clone *)         (* settings changed after use, live TLS origin: protocol selection *)
+| CDump (l : list dstep)
+| CConnect (l : list chstep).     (* ProxyConnectHeader and CONNECT credentials across proxy changes and Clone *)         (* request-level dump with inherited contexts *)   (* TLS handshake option: setter order x Clone *)         (* settings changed after use, live TLS origin: protocol selection *)
 
 Fixpoint leqb (a b : list nat) : bool :=
   match a, b with
@@ -91,4 +92,5 @@ Definition c19_check (c : c19_case) : bool :=
   | CHandshake l => hs_run gen_hs [] l
   | CPool l => pool_run gen_key [] l
   | CDump l => dump_run gen_dump [] l
+  | CConnect l => ch_run gen_ch [] l
   end.
